@@ -171,6 +171,7 @@ def gen_history(rng, n_ops, mc_share=0.25, rational=True, seeds=False):
         kinds.append("meas")
         errs.append(e)
     exponents = set()                        # measurements used as exponents: they keep whole values
+    frozen = set()                           # measurements under a square root: their central values stay as they are
 
     def meas_ids():
         return [i for i, k in enumerate(kinds) if k == "meas"]
@@ -197,7 +198,7 @@ def gen_history(rng, n_ops, mc_share=0.25, rational=True, seeds=False):
                 b, x = rng.sample(meas_ids(), 2)
                 if b in exponents:
                     b, x = x, b
-                if b not in exponents:
+                if b not in exponents and x not in frozen:
                     if mvals[x] not in (1.0, 2.0, 3.0):
                         ops.append(["set_value", x, rng.choice([2.0, 3.0])])
                         mvals[x] = ops[-1][2]
@@ -213,8 +214,9 @@ def gen_history(rng, n_ops, mc_share=0.25, rational=True, seeds=False):
             elif op == "sub" and rng.random() < 0.12 and len(meas_ids()) >= 2 and n_new < 5:
                 # a singular point: sqrt(a - b) at equal central values (value 0, infinite derivative-method uncertainty)
                 a, b = rng.sample([m for m in meas_ids()], 2)
-                if a in exponents or b in exponents:
+                if a in exponents or b in exponents or b in frozen:
                     continue
+                frozen.update([a, b])        # (a formula whose central value is undefined is outside every property)
                 if mvals[a] != mvals[b]:
                     ops.append(["set_value", b, mvals[a]])
                     mvals[b] = mvals[a]
@@ -231,12 +233,15 @@ def gen_history(rng, n_ops, mc_share=0.25, rational=True, seeds=False):
                 # a formula that is undefined on part of the sampled range (the measurement may have an uncertainty as
                 # large as its value): Monte Carlo discards those draws, reads must stay stable all the same
                 ops.append(["un", "sqrt", ["obj", rng.choice(meas_ids())]])
+                frozen.add(ops[-1][2][1])
             else:
                 ops.append(["bin", op, ["obj", i], ["obj", rng.randrange(len(kinds))]])
             kinds.append("der")
             n_new += 1
         elif r < 0.30:
             m = rng.choice(meas_ids())
+            if m in frozen:
+                continue
             ops.append(["set_value", m, rng.choice([1.0, 2.0, 3.0]) if m in exponents else rng.choice(VALS)])
             mvals[m] = ops[-1][2]
         elif r < 0.38:
